@@ -351,3 +351,40 @@ func libraryAgainstTextbook() []*progCase {
 	}
 	return out
 }
+
+// ---- a cut in the only clause that a bound first argument selects (C03) -------------------------
+// All clauses of sel/2 have an atom or integer as first head argument; the call binds it, so one
+// clause matches; that clause cuts; an older choice point is pending.
+
+func indexedCutPrograms() []*progCase {
+	x, y := gv(0), gv(1)
+	two := glist([]*G{gi(1), gi(2)}, nil)
+	old := gc("member", y, glist([]*G{ga("u"), ga("v")}, nil))
+	bodies := []*G{
+		ga("!"),
+		gc(",", gc("member", x, two), ga("!")),
+		conjOf([]*G{gc("member", x, two), ga("!"), gc("member", gv(2), two)}),
+		gc(";", gc("->", gc("member", x, two), ga("true")), ga("fail")),
+		gc("once", gc("member", x, two)),
+	}
+	var out []*progCase
+	for _, b := range bodies {
+		for _, key := range []*G{ga("a"), gi(7)} {
+			for pos := 0; pos < 2; pos++ {
+				other := []*G{ga("b"), gi(8)}
+				cut := renumber(gc(":-", gc("sel", key, x), b))
+				rest := []*G{gc("sel", other[0], gi(3)), gc("sel", other[1], gi(4))}
+				prog := &program{}
+				if pos == 0 {
+					prog.clauses = append([]*G{cut}, rest...)
+				} else {
+					prog.clauses = append(rest, cut)
+				}
+				for _, q := range []*G{gc(",", old, gc("sel", key, x)), gc(",", gc("sel", key, x), old), conjOf([]*G{old, gc("=", gv(3), key), gc("sel", gv(3), x)})} {
+					out = append(out, &progCase{prog: &program{clauses: prog.clauses, query: q, nq: 4}, note: "indexed-cut"})
+				}
+			}
+		}
+	}
+	return out
+}
